@@ -47,6 +47,16 @@ def specC15 : List Tok → List Tok → Bool
   | x :: xs, y :: ys => caseEq x y && specC15 xs ys
   | _, _ => false
 
+/-- the same relation with the case folding supplied from outside: each token comes with its case-folded text (Unicode case
+    mapping is external; the harness supplies Python's `str.lower()`), so that scripts beyond Latin-1 are judged correctly -/
+def caseEqF (x y : Tok × Str) : Bool :=
+  x.1.cls == y.1.cls && (x.1.raw == y.1.raw || (x.1.cls == 3 && !(quoted x.1.raw) && x.2 == y.2))
+
+def specC15F : List (Tok × Str) → List (Tok × Str) → Bool
+  | [], [] => true
+  | x :: xs, y :: ys => caseEqF x y && specC15F xs ys
+  | _, _ => false
+
 /-- `Spec.C12`: same boundaries (texts) and lexical classes -/
 def specC12 (tree relex : List Tok) : Bool := tree == relex
 
